@@ -276,7 +276,14 @@ def gen_cases(tier):
             c["behs"] = behs
         elif kind == "le":
             c["L"] = alternatives(rng, vs, rng.randint(1, 3), mode)
-            if rng.random() < 0.35:
+            if i % 4 == 2:
+                # the left alternative leaves the right union only at points with a NEGATIVE coordinate
+                lo, hi = -rng.randint(2, 5), rng.randint(1, 3)
+                c["L"] = [box_alt(rng, vs[:1], lo, hi)]
+                c["R"] = [box_alt(rng, vs[:1], lo + rng.randint(1, -lo), hi), box_alt(rng, vs[:1], hi + 3, hi + 5)]
+                if rng.random() < 0.5:
+                    c["R"].reverse()
+            elif rng.random() < 0.35:
                 # the right side covers the FIRST left alternative only
                 first = c["L"][0]
                 hi, lo = first[0][1], -first[1][1]
